@@ -26,12 +26,13 @@ func TestTiming(t *testing.T) {
 }
 
 func TestKFLines(t *testing.T) {
-	type kf struct{ name, pin, what, sig, tag string }
+	type kf struct{ status, name, pin, what, sig, tag string }
 	kfs := []kf{
-		{kfLock, "rlock-after-throw", "after a failed call (uncaught throw or fatal error) VM.Wait returns still holding Cores.Lock.RLock: the next SpawnSync/SpawnAsync on the same VM blocks forever in spawnCore", `^lock:leaked:after-failed-call$`, tagAfterFailure},
-		{kfAnyObj, "anyobj-return", "HandleTermination skips return values of declared type { ? }: the host receives nil instead of the any-object the function returned", `^(after-failure:)?ret:nil:anyobj:`, tagRetAnyObj},
-		{kfOrphan, "spawn-then-throw", "when a call fails while threads it spawned are still running, Wait drops them from the core list and returns; each of them later blocks forever in its final send on the unbuffered SignalHandle (leaked goroutine per thread)", `^goroutine:leak:after-failed-call$`, tagSpawnFail},
-		{kfExpr, "return-from-operand", "a host call of a function that returns out of an operand position (1000 + { return x; }) completes with the abandoned operand left below the return value on the core's operand stack", `^residue:stack:leaky$`, tagExprExit},
+		{"fixed", "0385937", "rlock-after-throw", "after a failed call (uncaught throw or fatal error) VM.Wait returned still holding Cores.Lock.RLock: the next SpawnSync/SpawnAsync on the same VM blocked forever in spawnCore", "", ""},
+		{"fixed", "0385937", "rlock-after-fatal-live-context", "calls after a failed call (host cancel function is a no-op, so they really execute) blocked forever on the leaked read lock; they must answer with the model's values / failures", "", ""},
+		{"fixed", "e4c50db", "spawn-then-throw", "when a call failed while threads it had spawned were still running, each of them blocked forever in its final send on the unbuffered SignalHandle (one leaked goroutine per thread)", "", ""},
+		{"open", kfAnyObj, "anyobj-return", "HandleTermination skips return values of declared type { ? }: the host receives nil instead of the any-object the function returned", `^(after-failure:)?ret:nil:anyobj:`, tagRetAnyObj},
+		{"open", kfExpr, "return-from-operand", "a host call of a function that returns out of an operand position (1000 + { return x; }) completes with the abandoned operand left below the return value on the core's operand stack", `^residue:stack:leaky$`, tagExprExit},
 	}
 	f, _ := os.Create("/var/tmp/c16/kf_lines.txt")
 	defer f.Close()
@@ -42,6 +43,10 @@ func TestKFLines(t *testing.T) {
 			}
 			c := fw.MkCase("", "pinned", w.pl, tagsOf(w.pl, w.firstFail)...)
 			wj, _ := json.Marshal(map[string]any{"kind": c.Kind, "payload": c.Payload, "tags": c.Tags})
+			if k.status == "fixed" {
+				fmt.Fprintf(f, "fixed: property=C16 %s %s :: {\"witness\":%s}\n", k.name, k.what, wj)
+				continue
+			}
 			sj, _ := json.Marshal(k.sig)
 			fmt.Fprintf(f, "open: property=C16 %s %s :: {\"witness\":%s,\"sig\":%s,\"tag\":%q}\n", k.name, k.what, wj, sj, k.tag)
 		}
